@@ -158,6 +158,11 @@ func RunOne(o core.RunOpts) (res *core.RunResult) {
 		if w.Halt != nil {
 			res.Halt = w.Halt
 			site := haltSite(w.Halt)
+			if a := anchoredIn(e.Prop, w.Halt.Stack); a != "" && e.Prop != "C02" {
+				// block execution died inside code this property is anchored in: the property's guarantee is not delivered
+				e.Fail(e.Prop, "halt_in_anchored_code", site, "%s panicked on replica %d at height %d inside %s: %s", w.Halt.Phase, w.Halt.Replica, w.Halt.Height, a, firstLine(w.Halt.Err))
+				break
+			}
 			e.Fail("C02", "halt", site, "%s panicked/erred on replica %d at height %d: %s", w.Halt.Phase, w.Halt.Replica, w.Halt.Height, firstLine(w.Halt.Err))
 			break
 		}
@@ -202,6 +207,22 @@ func firstLine(s string) string {
 		return s[:i]
 	}
 	return s
+}
+
+// anchoredIn returns the first anchor file of prop that appears in the panic stack ("" if none).
+func anchoredIn(prop, stack string) string {
+	for _, ln := range strings.Split(stack, "\n") {
+		ln = strings.TrimSpace(ln)
+		if !strings.HasPrefix(ln, "/") {
+			continue
+		}
+		for _, a := range Anchors[prop] {
+			if strings.Contains(ln, "/"+a+":") {
+				return a
+			}
+		}
+	}
+	return ""
 }
 
 // haltSite extracts the innermost repository frame of a halt for attribution.
